@@ -194,5 +194,29 @@ func VerifC04_DamagedFileDoesNotBlockRecovery() {
 	default:
 		sym.Assert(m.CounterValue("dropped_chunks_total") == 1, "the damaged chunk is counted as dropped")
 	}
+	// C19: the on-disk gauges match the directory: what is still there is what the gauges say
+	files, bytes := 0, 0
+	for _, id := range ids {
+		if f, ok := fs.Files[id]; ok {
+			files++
+			bytes += len(f)
+		}
+	}
+	if kind != 3 { // a failing stat leaves the size of that file unknown to the byte gauge
+		// an unreadable chunk is counted as dropped while its file stays (and stays counted in the byte gauge, which is the quota)
+		droppedButKept := 0
+		if _, still := fs.Files[ids[bad]]; still {
+			droppedButKept = 1
+		}
+		sym.Assert(int(m.GaugeValue("persistent_chunks")) == files-droppedButKept, "the file gauge equals the chunk files in the directory that are not counted as dropped")
+		sym.Assert(int(m.GaugeValue("persistent_chunk_bytes")) == bytes, "the byte gauge equals the bytes of the chunk files in the directory")
+	}
 	sym.Reach("recovered")
 }
+
+// VerifC19_DamagedChunkAccounting: the damaged-file run read for C19 (dropped counter, on-disk gauges).
+//
+//verif:reach recovered
+//verif:native off
+//verif:solver cvc5-int
+func VerifC19_DamagedChunkAccounting() { VerifC04_DamagedFileDoesNotBlockRecovery() }
